@@ -1673,4 +1673,6 @@ func c10() {
 			mMarshal(t, rnd())
 		}
 	}
+	// the same destination decoded into repeatedly
+	c10Reuse()
 }
